@@ -1196,6 +1196,9 @@ fn mqtt_cfg(cfg: &Value) -> (MqttServiceConfig, IoConfig) {
     if gi("max_qos", -1) >= 0 {
         m = m.set_max_qos(qos_of(gi("max_qos", 2)));
     }
+    if gi("version_timeout", -1) >= 0 {
+        m = m.protocol_version_timeout(Seconds(gi("version_timeout", 5) as u16));
+    }
     let hq = gi("handle_qos_after_disconnect", -1);
     if hq >= 0 {
         m = m.set_handle_qos_after_disconnect(Some(qos_of(hq)));
@@ -1431,6 +1434,39 @@ pub async fn run_conn(ctx: Rc<Ctx>, cmds: Vec<Value>) {
                     let c = c4.clone();
                     async move { Ok::<_, TestErr>(SlowPub5 { ctx: c }) }
                 }));
+            let svc = ServiceFactory::<IoBoxed, SharedCfg>::create(&server, cfg.clone()).await;
+            let svc = Pipeline::new(svc.expect("server create"));
+            let io = IoBoxed::from(Io::new(ep_io, cfg.clone()));
+            ntex_rt::spawn(async move {
+                let r = svc.call(io).await;
+                c.conn_done.set(true);
+                c.emit(Ev::new("conn_done").k(match &r {
+                    Ok(()) => "ok".to_string(),
+                    Err(e) => format!("err:{}", short(&format!("{e:?}"))),
+                }));
+            });
+        }
+        ("server", 5) if ctx.cfg_i("default_ctl", 0) != 0 => {
+            // the crate's default protocol-control and connection-control services (the application installs none)
+            let (c1, c4) = (ctx.clone(), ctx.clone());
+            let server = v5::MqttServer::new(move |h: v5::Handshake| hs5(c1.clone(), h))
+                .publish(move |p: v5::Publish| pub5(c4.clone(), p));
+            let svc = ServiceFactory::<IoBoxed, SharedCfg>::create(&server, cfg.clone()).await;
+            let svc = Pipeline::new(svc.expect("server create"));
+            let io = IoBoxed::from(Io::new(ep_io, cfg.clone()));
+            ntex_rt::spawn(async move {
+                let r = svc.call(io).await;
+                c.conn_done.set(true);
+                c.emit(Ev::new("conn_done").k(match &r {
+                    Ok(()) => "ok".to_string(),
+                    Err(e) => format!("err:{}", short(&format!("{e:?}"))),
+                }));
+            });
+        }
+        ("server", 3) if ctx.cfg_i("default_ctl", 0) != 0 => {
+            let (c1, c4) = (ctx.clone(), ctx.clone());
+            let server = v3::MqttServer::new(move |h: v3::Handshake| hs3(c1.clone(), h))
+                .publish(move |p: v3::Publish| pub3(c4.clone(), p));
             let svc = ServiceFactory::<IoBoxed, SharedCfg>::create(&server, cfg.clone()).await;
             let svc = Pipeline::new(svc.expect("server create"));
             let io = IoBoxed::from(Io::new(ep_io, cfg.clone()));
